@@ -391,3 +391,33 @@ func replayWitness(opts CheckOpts, f Finding) (bool, string) {
 	}
 	return false, out
 }
+
+// RunReplay re-runs the Go test stored in a replay file against the repository.
+func RunReplay(file, repo, verif string) int {
+	b, err := os.ReadFile(file)
+	if err != nil {
+		fmt.Fprintln(os.Stderr, "govc:", err)
+		return 2
+	}
+	var m map[string]interface{}
+	if err := json.Unmarshal(b, &m); err != nil {
+		fmt.Fprintln(os.Stderr, "govc:", err)
+		return 2
+	}
+	fmt.Printf("obligation: %v\nclause: %v\nnote: %v\n", m["obligation"], m["clause"], m["note"])
+	src, _ := m["go_test"].(string)
+	if src == "" {
+		fmt.Println("no replayable input in this file (no-failing-input-found); solver output:")
+		fmt.Println(m["solver_output"])
+		return 1
+	}
+	workDirRoot = filepath.Join(verif, ".work", fmt.Sprintf("%d", os.Getpid()))
+	os.MkdirAll(workDirRoot, 0o755)
+	defer os.RemoveAll(workDirRoot)
+	out, _ := runOverlayTest(CheckOpts{Repo: repo, VerifDir: verif}, src, "TestGovcReplay")
+	fmt.Println(out)
+	if strings.Contains(out, "REPLAY-CONFIRMED") {
+		return 1
+	}
+	return 0
+}
